@@ -164,6 +164,11 @@ def _rendered_child_attrs(prog: Program, ci: ClassInfo) -> dict[str, int]:
                         alias[t.id] = src
         for c in ast.walk(m.node):
             if isinstance(c, ast.Call) and isinstance(c.func, ast.Attribute) and c.func.attr in RENDER_CALLS and len(c.args) == 2:
+                # only what goes to the node's own output buffer matters for `blank` (a capture renders into a buffer of its own)
+                params = [a_.arg for a_ in m.node.args.args]
+                out_param = params[2] if len(params) > 2 else "buffer"
+                if not (isinstance(c.args[1], ast.Name) and c.args[1].id == out_param):
+                    continue
                 recv = c.func.value
                 a = None
                 if is_self_attr(recv):
@@ -189,6 +194,12 @@ def _check_composite_blank(prog: Program, res: Result, rule: str) -> None:
             continue
         asg = [a for a in ast.walk(init.node) if isinstance(a, ast.Assign) and any(is_self_attr(t, "blank") for t in a.targets)]
         if not asg:
+            # a node that renders children but never sets its own flag inherits Node's default (blank = True)
+            rendered0 = _rendered_child_attrs(prog, ci)
+            inherited = any("__init__" in b.methods and any(isinstance(a, ast.Assign) and any(is_self_attr(t, "blank") for t in a.targets) for a in ast.walk(b.methods["__init__"].node)) for b in prog.mro(ci)[1:] if b.full != node_base.full)
+            if rendered0 and not inherited:
+                n += 1
+                res.fail(rule, file=ci.file, line=init.node.lineno, qualname=f"{ci.name}.__init__", construct=f"{ci.name} renders {sorted(rendered0)} but never sets self.blank", message=f"{ci.name} renders self.{sorted(rendered0)[0]} but its __init__ leaves `blank` at Node's default (True): an enclosing block that holds nothing else counts as blank and suppresses whatever self.{sorted(rendered0)[0]} writes", what=f"{ci.name}.blank accounts for every child it renders")
             continue
         v = asg[-1].value
         if isinstance(v, ast.Constant):
